@@ -388,6 +388,21 @@ func c19Run(c *c19Case) (exp, act, sig string, ok bool) {
 		case "growing-reader":
 			gr = &growingReader{buf: append([]byte{}, data...)}
 			r = gr
+		case "offset-strings-reader":
+			// a seekable host reader handed over after the host consumed a header from it
+			sr := strings.NewReader("HEADER\n" + c.Source)
+			sr.Seek(7, io.SeekStart)
+			r = sr
+		case "offset-file":
+			path := filepath.Join(dir, "host.txt")
+			os.WriteFile(path, append([]byte("HEADER-OF-THE-HOST\n"), data...), 0o644)
+			f, ferr := os.Open(path)
+			if ferr != nil {
+				return "", ferr.Error(), "harness", false
+			}
+			defer f.Close()
+			f.Seek(19, io.SeekStart)
+			r = f
 		}
 		p = prolog.New(r, out)
 		alias = "user_input"
@@ -610,7 +625,8 @@ func c19Work(w *h.W) {
 	for _, e := range []string{"error", "eof_code", "reset"} {
 		cfgs = append(cfgs, cfg{"file", e, false})
 	}
-	cfgs = append(cfgs, cfg{"strings-reader", "reset", false}, cfg{"one-byte-reader", "reset", false}, cfg{"eof-with-data-reader", "reset", false})
+	cfgs = append(cfgs, cfg{"strings-reader", "reset", false}, cfg{"one-byte-reader", "reset", false}, cfg{"eof-with-data-reader", "reset", false},
+		cfg{"offset-strings-reader", "reset", false}, cfg{"offset-file", "reset", false})
 	sources := append([]string{}, c19Sources...)
 	sources = append(sources, c19LongPrefix+" abcd", c19LongPrefix+" aé日b", c19LongPrefix+"\n%"+"\nab.")
 	for _, src := range sources {
@@ -717,7 +733,7 @@ func c19Replay(b []byte) (string, string, bool) {
 func init() {
 	h.Register(&h.Check{
 		ID: "C19",
-		Rule: "all sequences of <= L input operations out of {get_char, peek_char, read_term, at_end_of_stream, position, end_of_stream, a failing peek with an instantiated argument} (thorough: plus get_code, peek_code, a byte operation on a text stream) over 15 short source texts (ASCII and multi-byte, with and without trailing layout, comments, 0'c, quoted atoms, text ending inside a term) and 3 long ones whose operations straddle byte 4096 of the buffer, x stream kinds {file opened by open/4 with each eof_action, host strings.Reader, a one-byte-at-a-time reader, a reader that returns data together with io.EOF}; a host source that GROWS after it reported end of file (environment events feed1/feed2 interleaved with the operations, all sequences of <= 4 (5) over 9 symbols on 3 initial texts); the same for binary files over 5 byte sources with {get_byte, peek_byte, ...}; every sequence issued BOTH as separate queries and as consecutive goals of one conjunction; plus all sequences of <= L output operations to the host writer and to a file. Distinct = case.",
+		Rule: "all sequences of <= L input operations out of {get_char, peek_char, read_term, at_end_of_stream, position, end_of_stream, a failing peek with an instantiated argument} (thorough: plus get_code, peek_code, a byte operation on a text stream) over 15 short source texts (ASCII and multi-byte, with and without trailing layout, comments, 0'c, quoted atoms, text ending inside a term) and 3 long ones whose operations straddle byte 4096 of the buffer, x stream kinds {file opened by open/4 with each eof_action, host strings.Reader, a one-byte-at-a-time reader, a reader that returns data together with io.EOF, a seekable strings.Reader and an *os.File handed over after the host consumed a header from them}; a host source that GROWS after it reported end of file (environment events feed1/feed2 interleaved with the operations, all sequences of <= 4 (5) over 9 symbols on 3 initial texts); the same for binary files over 5 byte sources with {get_byte, peek_byte, ...}; every sequence issued BOTH as separate queries and as consecutive goals of one conjunction; plus all sequences of <= L output operations to the host writer and to a file. Distinct = case.",
 		Explanation: "state = (byte offset, end-of-file delivered) of the reference cursor; transition = one input predicate on the real stream; every operation's observed value is compared with the reference cursor model (peeks leave the cursor, reads deliver consecutive characters/bytes/terms, end_of_file then the eof_action, position = bytes consumed, end_of_stream never at/past while input remains and past once end_of_file was delivered)",
 		Assumptions: []string{"whether read_term/3 consumes the layout character after the end token is implementation defined and resolved by observing the implementation once", "after a syntax error the cursor is unspecified: the rest of that sequence is not asserted"},
 		Work:        c19Work,
